@@ -735,3 +735,40 @@ def spec_parse_subcommand(fns, consts):
 
 
 SPECS["C09"] = [spec_parse_subcommand]
+
+
+# ------------------------------------------------------------------ C11: building is idempotent (the Built flag)
+
+def spec_build_once(fns, consts):
+    """Command::_build_self: when the Built flag is already set nothing else is called (a second build
+    is a no-op), and every path that does build sets the flag before returning."""
+    con = contracts.Contracts(fns, default_pure=True)
+    ctx = symex.Ctx(consts, con)
+    fn = _find(fns, "builder/command.rs", "_build_self")
+    expand = ("bool", ctx.sym("expand_help_tree", "Bool"))
+    ex = symex.Exec(ctx, fn, [("opq", "self"), expand])
+    ex.run(havoc_unassigned=True, cut_loops=True)
+    built = [k for k in ctx.keys if re.search(r"AppFlags::is_set\(.*Built", k)]
+    if len(built) != 1:
+        raise Unsupported(f"_build_self: test of the Built flag not found exactly once ({len(built)})")
+    b = ctx.keys[built[0]]
+    obs = []
+    n_noop = n_build = 0
+    for (pc, val), ca in zip(ex.returns, ex.return_callargs):
+        others = [c for c in ca if not re.search(r"AppFlags::is_set$|::get_name$", c[0])]
+        sets_built = any(re.search(r"AppFlags::set$", c[0]) and any("Built" in a for a in c[1]) for c in ca)
+        if b in pc:   # flag already set on this path
+            n_noop += 1
+            obs.append({"fn": fn.name, "block": "ret", "kind": "spec", "target": "build_once", "msg": "already built => nothing is rebuilt" + ("" if not others else f" ({others[0][0].split('::')[-1]} called)"),
+                        "pc": list(pc), "neg": "false" if not others else "true"})
+        else:
+            n_build += 1
+            obs.append({"fn": fn.name, "block": "ret", "kind": "spec", "target": "build_once", "msg": "a build marks the command as built", "pc": list(pc), "neg": "false" if sets_built else "true"})
+    if n_noop == 0 or n_build == 0:
+        raise Unsupported(f"_build_self: expected both a no-op path and building paths (got {n_noop}/{n_build})")
+    for o in obs:
+        o.setdefault("target", "build_once")
+    return ctx, obs, [_enc(fn, ex, len(ex.returns))], con
+
+
+SPECS["C11"] = [spec_build_once]
